@@ -69,11 +69,21 @@ def combinations_cut(I, ctx, args, kwargs, node):
     xs, k = args
     if not isinstance(k, int):
         raise PyvcUnsupported('combinations with a symbolic size')
-    return AbsSeq(COMB(stream_id(I, ctx, xs), z3.IntVal(k)))
+    out = AbsSeq(COMB(stream_id(I, ctx, xs), z3.IntVal(k)))
+    out.size = k
+    return out
+
+
+def tuple_cut(I, ctx, args, kwargs, node):
+    # tuple(<abstract collection>) is the same abstract collection
+    if len(args) == 1 and (is_atom(args[0]) or isinstance(args[0], AbsSeq)):
+        return args[0]
+    return NotImplemented
 
 
 def native_cuts():
-    return {id(itertools.chain): (itertools.chain, chain_cut), id(itertools.combinations): (itertools.combinations, combinations_cut)}
+    return {id(itertools.chain): (itertools.chain, chain_cut), id(itertools.combinations): (itertools.combinations, combinations_cut),
+            id(tuple): (tuple, tuple_cut)}
 
 
 # ---- ghost models --------------------------------------------------------------------------------------------------------
@@ -156,6 +166,19 @@ def m_exists_before(I, ctx, args, kwargs, node):
 
 
 # ---- the loop contract -----------------------------------------------------------------------------------------------------
+def read_after(fn_node, st):
+    """names the function reads after the loop `st` has finished (anywhere outside the loop body on a later line, or in an enclosing
+    loop that comes round again)"""
+    inside = {id(n) for n in ast.walk(st)}
+    enclosing = [n for n in ast.walk(fn_node) if isinstance(n, (ast.For, ast.While)) and n is not st and any(m is st for m in ast.walk(n))]
+    out = set()
+    for n in ast.walk(fn_node):
+        if isinstance(n, ast.Name) and isinstance(n.ctx, ast.Load) and id(n) not in inside:
+            if n.lineno > st.end_lineno or any(id(n) in {id(m) for m in ast.walk(e)} for e in enclosing):
+                out.add(n.id)
+    return out
+
+
 def assigned_names(st):
     out = set()
     for n in ast.walk(st):
@@ -164,11 +187,15 @@ def assigned_names(st):
     return sorted(out)
 
 
-def for_cut(vc, inv, havoc, ordinal=0, kind='P'):
+def for_cut(vc, inv, havoc, ordinal=0, kind='P', fn_node=None):
     """loop contract for `for target in <stream>`: `inv` names a clause of the contract with parameters among the contract's
     bindings, the function's local variables, `xs` (the stream) and `k` (elements consumed); `havoc(I, ctx, name, tag)` gives
     an arbitrary value of the right type for a variable the loop assigns"""
+    passes = itertools.count()
+
     def run(I, st, ctx, env):
+        nth = next(passes)
+        sfx = f'-pass{nth}' if nth else ''
         it = I.eval(st.iter, ctx, env)
         if ctx.dead:
             return
@@ -176,19 +203,27 @@ def for_cut(vc, inv, havoc, ordinal=0, kind='P'):
             raise PyvcUnsupported(f'loop contract on a loop over {type(it).__name__}')
         line = getattr(st, 'lineno', '?')
         names = assigned_names(st)
+        # the invariant names program variables by ROLE, not by spelling: `acc` is the one variable the loop assigns and the code
+        # reads afterwards (the running result); `xs_size` is the subset size of the stream; parameters keep their (API) names
+        live = [n for n in names if fn_node is not None and n in read_after(fn_node, st)]
+        if len(live) != 1:
+            raise PyvcUnsupported(f'loop at line {line}: expected one running result assigned in the loop and read after it, found {live}')
+        acc_name = live[0]
 
         def bind(ev, k):
             b = dict(vc.bindings)
             b.update({n: v for n, v in ev.items() if isinstance(n, str) and not n.startswith('__')})
             b['xs'] = it
+            b['xs_size'] = getattr(it, 'size', None)
             b['k'] = k
+            b['acc'] = ev[acc_name]
             return b
-        add_clause_obligation(vc, ctx, inv, bind(env, 0), f'{inv}-at-entry-of-for{ordinal}', kind=kind, path=f'loop-entry@{line}',
+        add_clause_obligation(vc, ctx, inv, bind(env, 0), f'{inv}-at-entry-of-for{ordinal}{sfx}', kind=kind, path=f'loop-entry@{line}',
                               extra_meta={'loop': line})
         # an arbitrary iteration
         for n in names:
-            env[n] = havoc(I, ctx, n, f'it{ordinal}')
-        k = fresh_int(f'k{ordinal}')
+            env[n] = havoc(I, ctx, 'acc' if n == acc_name else n, f'it{ordinal}{sfx}')
+        k = fresh_int(f'k{ordinal}{sfx}')
         body = ctx.fork(z3.And(k >= 0, k < LEN(it.sid)))
         benv = dict(env)
         assume_clause(vc, body, inv, bind(benv, k))
@@ -206,14 +241,14 @@ def for_cut(vc, inv, havoc, ordinal=0, kind='P'):
                 ctx.exits.append(e)
         body.exits = saved
         if not body.dead:
-            add_clause_obligation(vc, body, inv, bind(benv, k + 1), f'{inv}-kept-by-body-of-for{ordinal}', kind=kind,
+            add_clause_obligation(vc, body, inv, bind(benv, k + 1), f'{inv}-kept-by-body-of-for{ordinal}{sfx}', kind=kind,
                                   path=f'loop-body@{line}', extra_meta={'loop': line})
-            vc.add(Obligation(vc.oid(f'canary-body-of-for{ordinal}'), 'canary', body.pc, False, vc.prop))
+            vc.add(Obligation(vc.oid(f'canary-body-of-for{ordinal}{sfx}'), 'canary', body.pc, False, vc.prop))
         if st.orelse:
             raise PyvcUnsupported('for-else under a loop contract')
         # after the loop: exhausted (arbitrary values satisfying the invariant at the full length) or left by `break`
         for n in names:
-            env[n] = havoc(I, ctx, n, f'after{ordinal}')
+            env[n] = havoc(I, ctx, 'acc' if n == acc_name else n, f'after{ordinal}{sfx}')
         assume_clause(vc, ctx, inv, bind(env, LEN(it.sid)))
         if breaks:
             outs = [Exit('break', None, e.pcl, e.heap, e.env) for e in breaks]
@@ -237,4 +272,5 @@ def install_for_cuts(vc, qual, invariants, havoc):
     if tbl is None:
         tbl = vc.I.loop_cuts = {}
     for k, (node, inv) in enumerate(zip(nodes, invariants)):
-        tbl[id(node)] = for_cut(vc, inv, havoc, ordinal=k)
+        if inv is not None:          # None: a loop over a concrete range, unrolled as usual
+            tbl[id(node)] = for_cut(vc, inv, havoc, ordinal=k, fn_node=f.node)
